@@ -140,3 +140,74 @@ func VerifC05Offsets(nT int, align int, kind int, dim2 int, blk int) {
 	}
 	verifAssert(end == f.pos, "end-offset-is-file-length")
 }
+
+// ---- harness B: metadata values survive write -> decode, byte for byte ----
+
+func vfFixedString(tag string, n int) string {
+	s := verifNondetString(tag, n)
+	verifAssume(len(s) == n) // the length is a job parameter; the bytes are arbitrary
+	return s
+}
+
+// VerifC05KV: values of the kinds WriteGGUF accepts, with symbolic contents (strings of n arbitrary bytes,
+// arrays of two elements), written and decoded again. mode 0: scalars and a string; 1: numeric arrays;
+// 2: a string array.
+func VerifC05KV(n int, mode int) {
+	f := &vfFile{}
+	kv := KV{"general.architecture": "x"}
+	u := verifNondetU32("u32")
+	fl := verifF32(verifNondetU32("f32bits"))
+	b := verifNondetBool("bool")
+	s := vfFixedString("string", n)
+	i1, i2 := verifNondetInt32("int"), verifNondetInt32("int")
+	u1, u2 := verifNondetU32("uint"), verifNondetU32("uint")
+	f1 := verifF32(verifNondetU32("f32bits"))
+	s1, s2 := vfFixedString("elem", n), vfFixedString("elem", n)
+	switch mode {
+	case 0:
+		kv["x.u32"], kv["x.bool"], kv["x.str"] = u, b, s
+	case 3:
+		kv["x.f32"] = fl
+	case 1:
+		kv["x.ints"], kv["x.uints"], kv["x.floats"] = []int32{i1, i2}, []uint32{u1, u2}, []float32{f1}
+	case 2:
+		kv["x.strs"] = []string{s1, s2}
+	}
+	err := WriteGGUF(f, kv, nil)
+	verifAssert(err == nil, "write-succeeds")
+	if err != nil {
+		return
+	}
+	g, _, err := Decode(&vfReader{f: f}, -1)
+	verifAssert(err == nil, "decode-succeeds")
+	if err != nil {
+		return
+	}
+	verifReach("decoded")
+	got := g.KV()
+	verifAssert(got.Architecture() == "x", "architecture-preserved")
+	switch mode {
+	case 0:
+		verifAssert(got.Uint("u32") == u, "uint32-preserved")
+		verifAssert(got.Bool("bool") == b, "bool-preserved")
+		verifAssert(got.String("str") == s, "string-preserved")
+	case 3:
+		if fl == fl {
+			verifAssert(got.Float("f32") == fl, "float32-preserved")
+		}
+	case 1:
+		us := got.Uints("uints")
+		verifAssert(len(us) == 2 && us[0] == u1 && us[1] == u2, "uint32-array-preserved")
+		fs := got.Floats("floats")
+		verifAssert(len(fs) == 1, "float32-array-length-preserved")
+		if len(fs) == 1 && f1 == f1 {
+			verifAssert(fs[0] == f1, "float32-array-preserved")
+		}
+		// int32 arrays are read through Uints by the models (token types)
+		is := got.Uints("ints")
+		verifAssert(len(is) == 2 && is[0] == uint32(i1) && is[1] == uint32(i2), "int32-array-preserved")
+	case 2:
+		ss := got.Strings("strs")
+		verifAssert(len(ss) == 2 && ss[0] == s1 && ss[1] == s2, "string-array-preserved")
+	}
+}
